@@ -107,6 +107,44 @@ class _Model(DSOLModel):
 _UEC = None
 
 
+_FAST = False
+
+
+def fast_selfwait():
+    """stop() called on the run thread waits (at most) one second for the run thread, i.e. for itself, to be parked: a
+    pure delay.  For the run thread only, the simulator module's clock jumps a quarter of a second at every sleep; all
+    other threads keep the real clock and the real sleep."""
+    global _FAST
+    import pydsol.core.simulator as simmod
+    import time as _t
+    if _FAST and getattr(simmod.time, "_verif_fast", False):
+        return
+    from pydsol.core.simulator import SimulatorWorkerThread
+    off = {}
+
+    def on_worker():
+        return isinstance(threading.current_thread(), SimulatorWorkerThread)
+
+    class _Time:
+        _verif_fast = True
+
+        @staticmethod
+        def time():
+            return _t.time() + (off.get(threading.get_ident(), 0.0) if on_worker() else 0.0)
+
+        def __getattr__(self, name):
+            return getattr(_t, name)
+
+    def _sleep(dt):
+        if on_worker():
+            off[threading.get_ident()] = off.get(threading.get_ident(), 0.0) + 0.25
+        else:
+            _t.sleep(dt)
+    simmod.time = _Time()
+    simmod.sleep = _sleep
+    _FAST = True
+
+
 def user_event_class():
     global _UEC
     if _UEC is None:
@@ -270,6 +308,19 @@ class SimCtl:
                         continue
                     res.append(BAD); info.append("initialize accepted while running")
                     continue
+                elif k == "hstop":
+                    # stop() issued by the handler: accepted (the simulator is running), the run pauses after this event
+                    if not sim.is_starting_or_running():
+                        res.append(0); info.append("skipped: not running")
+                        continue
+                    fast_selfwait()
+                    try:
+                        sim.stop()
+                    except DSOLError:
+                        res.append(BAD); info.append("stop() refused inside a handler of a running simulator")
+                        continue
+                    res.append(0); info.append("stopped")
+                    continue
                 elif k in ("hstart", "hrun", "hstep"):
                     # a run command issued from a handler (the simulator is running): refused, and a refused command
                     # changes nothing -- in particular not the bound of the run in progress
@@ -328,8 +379,8 @@ class SimCtl:
         self.executed.append((k, clk))
         self.rec({"a": "Exec", "id": k, "clk": clk, "kind": "H", "ops": h["ops"], "res": res,
                   "raise": bool(h["raise"]), "info": info})
-        if h["raise"] and self.strategy == "pause":
-            self.seg_count += 1      # the fault itself pauses the run: no stop() rendezvous here
+        if (h["raise"] and self.strategy == "pause") or "stopped" in info:
+            self.seg_count += 1      # the fault (or the handler's own stop()) pauses the run: no stop() rendezvous here
         else:
             self._maybe_pause()
         if h["raise"]:
